@@ -55,12 +55,16 @@ theorem prepended_entries_ignored (nm : Names) (a : List Entry) (extra : Entry) 
     extractFiles nm (extra :: a) files d = extractFiles nm a files d := by
   apply extractFiles_congr
   intro x hx
-  unfold byName
+  have hc : byName (extra :: a) x =
+      match byName a x with
+      | some e' => some e'
+      | none => if extra.name = x then some extra else none := rfl
+  rw [hc]
   cases byName a x with
   | some e => rfl
   | none =>
-    simp only
     have : extra.name ≠ x := fun e => h (e ▸ hx)
+    simp only
     rw [if_neg this]
 
 /-! ## serving side: `create_zip` -/
